@@ -631,7 +631,6 @@ class WebSocketResponse(StreamResponse, Generic[_DecodeText]):
             except asyncio.TimeoutError:
                 raise
             except EofStream:
-                self._close_code = WSCloseCode.OK
                 await self.close()
                 return WS_CLOSED_MESSAGE
             except WebSocketError as exc:
